@@ -473,12 +473,22 @@ def generate_bufr_message(decoder, s, info_only=False, continue_on_error=False, 
             if not continue_on_error:
                 raise e
             print('Continuing on next message and ignoring error: {}'.format(e), file=sys.stderr)
-            if info_only:
-                idx_start += 1
-            else:
-                try:
-                    bufr_message = decoder.process(
-                        s[idx_start:], start_signature=None, info_only=True, *args, **kwargs)
-                    idx_start += bufr_message.length.value
-                except PyBufrKitError:
-                    idx_start += 1
+            idx_start += nbytes_to_skip_failed_message(s, idx_start)
+
+
+def nbytes_to_skip_failed_message(s, idx_start):
+    """
+    Number of bytes to advance when the message starting at the given index
+    cannot be decoded. It is the total length declared by the message itself, i.e.
+    the 3 octets right after the start signature, so that whatever the message
+    holds, e.g. a start signature in its local section or character data, is not
+    taken for the start of another message. When section 0 is not usable the
+    search resumes from the next byte.
+    """
+    section0 = bytearray(s[idx_start + len(MESSAGE_START_SIGNATURE): idx_start + 8])
+    if len(section0) == 4:
+        nbytes = (section0[0] << 16) + (section0[1] << 8) + section0[2]
+        edition = section0[3]
+        if 2 <= edition <= 4 and nbytes >= 8 and idx_start + nbytes <= len(s):
+            return nbytes
+    return 1
